@@ -35,6 +35,9 @@ PROGRAMS = [
     ("dim-str-array-2d", '10 DIM F$ ( 2 , 3 ) : F$ ( 1 , 2 ) = "X"'),
     ("dim-str-scalar", '10 DIM G$ : G$ = "X"'),
     ("dim-mixed", '10 DIM G$ , H ( 3 ) , F$ ( 4 ) : G$ = F$ ( 1 )'),
+    ("dim-three-interleaved", '10 DIM A$ , B$ , C$ : A$ = B$ + C$'),
+    ("dim-three-interleaved2", '10 DIM B$ , A$ , G$ , C$ : A$ = B$ + C$ + G$'),
+    ("dim-arrays-interleaved", '10 DIM K$ ( 5 ) , T$ , F$ ( 7 ) , U$ : T$ = K$ ( 1 ) + F$ ( 2 ) + U$'),
     ("dim-repeated-str-scalar", '10 DIM G$ , H , G$ : G$ = "X"'),
     ("dim-repeated-num-scalar", "10 DIM H , H : H = 1"),
     ("dim-scalar-twice-two-statements", '10 DIM G$ : DIM G$ : G$ = "X"'),
@@ -86,12 +89,28 @@ def run_symbolic(src, init_vars):
         return compiler.convert(src + "\n", add_standard_prefix=False, add_suffix=False, skip_procedure_headers=True,
                                 default_str_storage=symproxy.SInt(s), compiler_configs=cfg, initialize_vars=init_vars)
 
-    old = el.defaultdict
-    el.defaultdict = lambda factory=None: symproxy.SymDict(factory)
+    had = hasattr(el, "defaultdict")
+    old = getattr(el, "defaultdict", None)
+    if had:
+        el.defaultdict = lambda factory=None: symproxy.SymDict(factory)
     try:
         paths = symproxy.explore(fn, premises=[s >= 1, s <= 32766, c >= 1, c <= 32766])
     finally:
-        el.defaultdict = old
+        if had:
+            el.defaultdict = old
+    proxy_trouble = [p for p in paths if p[1][0] == "exc" and re.search(r"SInt|SymDict|SStr|unhashable", f"{type(p[1][1]).__name__} {p[1][1]}")]
+    if proxy_trouble:
+        # the code now does something with the sizes that the integer proxy cannot follow (hashing, grouping ...): fall
+        # back to concrete size pairs; the same obligations are then decided under s == sv, c == cv
+        paths = []
+        for sv, cv in ((80, 200), (200, 80), (40, 40), (32, 64), (64, 32)):
+            sc = StringConfigs.model_construct(strname_to_size={k: cv for k in CONFIG_KEYS})
+            cfg = CompilerConfigs.model_construct(string_configs=sc)
+            try:
+                text = compiler.convert(src + "\n", add_standard_prefix=False, add_suffix=False, skip_procedure_headers=True, default_str_storage=sv, compiler_configs=cfg, initialize_vars=init_vars)
+                paths.append(([s == sv, c == cv], ("ok", text), []))
+            except Exception as e:  # noqa: BLE001
+                paths.append(([s == sv, c == cv], ("exc", e), []))
     return s, c, paths
 
 
